@@ -61,6 +61,19 @@ CLAIMED.update({
             "oracle/correspondence only (IEEE arithmetic is not modelled in the kernel).", TECH, "DESIGN.md 6/C11"),
 })
 
+CLAIMED.update({
+    "C03": ("proof",
+            "Step-by-step Lean model of _pixman_compute_composite_region32 and the composite32 box loop on top of the verified region "
+            "algebra: reported region = exact intersection, FALSE iff empty, canonical, boxes handed to the composite function cover "
+            "exactly the region with consistent origins (unconditional given the stated int32 no-overflow range); correspondence + "
+            "first-principles point oracle on the 32-bit and 16-bit entries and the box loop; byte-level canary-frame oracle on "
+            "composite/fill/glyph/trapezoid drawing for 11 destination formats incl. a1/a4/24bpp under 2 implementation chains.",
+            TB + "Exactness is claimed for alpha maps without a clip region (with one: reported region is a subset of the property's "
+            "intersection). Partial: 'every composite routine honours its box' and the sub-byte/padding frame are differential "
+            "(canary oracle), not proved; the 16-bit wrapper is correspondence/oracle only (known finding: coordinates > 32767).",
+            TECH, "DESIGN.md 6/C03"),
+})
+
 REASON_PENDING = "not yet claimed: check under construction (DESIGN.md section 6)"
 
 
